@@ -175,7 +175,7 @@ package ovsdb
 
 //@ func NewErrWrongType
 //@ modifies nothing
-//@ ensures result != nil
+//@ ensures result != nil && istype(result, "*ErrWrongType")
 //@ func NewConstraintViolation
 //@ modifies nothing
 //@ ensures result != nil
